@@ -451,6 +451,28 @@ def run(chk):
         want = "".join(format(int(c, 16), "04b") for c in hx)
         if r[0] != "ok" or r[1] != want:
             chk.violate("the order in which constants are declared changes the result", {"program": t, "order": how, "length": nn}, "ok " + want, il[:300])
+    # ---- a dotted path whose first component is named like a built-in descends like any other (F45, repaired)
+    bn = []
+    for _ in range(200 if thorough else 30):
+        nm = rng.choice(["pc", "incbin", "incbinstr", "inchexstr", "le", "sizeof"])
+        v, w = rng.randrange(1, 250), rng.randrange(1, 250)
+        pad = rng.randrange(0, 4)
+        t = HEAD + "".join("    pad\n" for _ in range(pad)) + "%s:\n.x = %d\n..y = %d\n    emit %s.x\n    emit .x\n    emit %s.x.y\nk = %s.x + 1\n    emit k\n" % (nm, v, w, nm, nm, nm)
+        bn.append((t, "00" * pad + "%04x%04x%04x%04x" % (v, v, w, v + 1)))
+    bops = [fw.asm_op([("main.asm", t)]) for t, _ in bn]
+    bimpl = fw.run_oracle_resilient(bops, "c15b")
+    bmodel = fw.run_model(bops, "c15b", timeout=3000)
+    for (t, hx), a, m in zip(bn, bimpl, bmodel):
+        chk.evaluations += 1
+        il = fw.asm_line(a)
+        if il != m:
+            chk.disagree(t[-300:], m[:250], il[:250])
+        r = parse(il)
+        chk.count("builtin_named_parent_" + r[0])
+        want = "".join(format(int(c, 16), "04b") for c in hx)
+        if r[0] != "ok" or r[1] != want:
+            chk.violate("a dotted path that starts with the name of a built-in does not denote the declared symbol", {"program": t}, "ok " + want, il[:300])
+    chk.traces += len(bops)
     # ---- nested declarations inside taken #if arms vs the flattened program
     sc = [gen_if_scoped(rng) for _ in range(2000 if thorough else 250)]
     sops = []
